@@ -11,7 +11,7 @@ Schedule points:
 import sys
 import threading
 
-HANG_S = 30.0
+HANG_S = 120.0
 
 
 class Deadlock(Exception):
